@@ -129,7 +129,9 @@ def run(ctx):
                 try:
                     U = n.rf(d)
                     val = n.atom('self.value.value')
-                    ref = val + n.atom(names[2]) * (n.atom('self.max') - n.atom('self.min')) * U
+                    from ..celltables import bound_places
+                    bp = bound_places(f) or ('self.min', 'self.max')
+                    ref = val + n.atom(names[2]) * (n.atom(bp[1]) - n.atom(bp[0])) * U
                     got = n.rf(ret)
                     ok = got.equals(ref)
                     why = 'sample = %s, expected value + step*(max-min)*U' % got.canon()[:200]
